@@ -172,7 +172,9 @@ func VH_C13_signing_key() {
 	} else {
 		vAssert("C13.reported-cert-error-only-when-empty", len(c.signCert) == 0)
 	}
-	vAssert("C13.second-call-returns-cached-context", sp.SigningContext() == ctx)
+	// a later call signs with the same key and embeds the same certificate (cached or rebuilt)
+	k2, c2 := vhSigningKeyMatches(sp.SigningContext(), c)
+	vAssert("C13.later-calls-use-the-same-key-and-certificate", k2 && c2)
 }
 
 // VH_C19_keys: published KeyDescriptors match the keys really used.
@@ -282,16 +284,20 @@ func VH_C19_fields() {
 		}
 	}
 	// validity
-	vAssert("C19.clock-read-once", vClockReads("sp") == 1)
-	if vClockReads("sp") >= 1 {
-		now := vClockAt("sp", 0)
-		vAssume(vAnd(now >= 0, now <= 4102444800000000000)) // 1970..2100: no int64 wrap when adding the validity
+	vAssert("C19.sp-clock-consulted", vClockReads("sp") >= 1)
+	if reads := vClockReads("sp"); reads >= 1 {
 		const hour = int64(3600) * 1000000000
-		want := now + 7*24*hour
-		if slo {
-			want = vIteI(hours <= 0, now+7*24*hour, now+hours*hour)
+		okSome := false
+		for k := 0; k < reads && k < 4; k++ {
+			now := vClockAt("sp", k)
+			vAssume(vAnd(now >= 0, now <= 4102444800000000000)) // 1970..2100: no int64 wrap when adding the validity
+			want := now + 7*24*hour
+			if slo {
+				want = vIteI(hours <= 0, now+7*24*hour, now+hours*hour)
+			}
+			okSome = vOr(okSome, vNs(md.ValidUntil) == want)
 		}
-		vAssert("C19.valid-until-is-clock-plus-validity", vNs(md.ValidUntil) == want)
+		vAssert("C19.valid-until-is-clock-plus-validity", okSome)
 		vAssert("C19.valid-until-in-utc", vIsUTC(md.ValidUntil))
 	}
 	// advertised encryption methods are decryptable ones
